@@ -562,6 +562,62 @@ impl ReactCache
     }
 }
 
+#[cfg(feature = "verif")]
+impl ReactCache
+{
+    pub(crate) fn verif_fill(&self, snap: &mut crate::verif::Snapshot)
+    {
+        use crate::verif::{VerifTableEntry, VerifTableKind};
+        fn list(handles: &[ReactorHandle]) -> Vec<(Entity, bool)>
+        {
+            handles.iter().map(|h| (*h.sys_command(), matches!(h, ReactorHandle::AutoDespawn(_)))).collect()
+        }
+
+        snap.cache_scratch_commands = self.reaction_commands_buffer.len();
+        snap.removal_checkers = self.removal_checkers.len();
+        snap.despawn_tracker_pending = self.despawn_receiver.len();
+        for (id, reactors) in self.component_reactors.iter()
+        {
+            snap.tables.push(VerifTableEntry{
+                kind: VerifTableKind::ComponentInsertion, type_id: Some(*id), entity: None,
+                reactors: list(&reactors.insertion_callbacks),
+            });
+            snap.tables.push(VerifTableEntry{
+                kind: VerifTableKind::ComponentMutation, type_id: Some(*id), entity: None,
+                reactors: list(&reactors.mutation_callbacks),
+            });
+            snap.tables.push(VerifTableEntry{
+                kind: VerifTableKind::ComponentRemoval, type_id: Some(*id), entity: None,
+                reactors: list(&reactors.removal_callbacks),
+            });
+        }
+        for (entity, reactors) in self.despawn_reactors.iter()
+        {
+            snap.tables.push(VerifTableEntry{
+                kind: VerifTableKind::Despawn, type_id: None, entity: Some(*entity), reactors: list(reactors),
+            });
+        }
+        for (id, reactors) in self.any_entity_event_reactors.iter()
+        {
+            snap.tables.push(VerifTableEntry{
+                kind: VerifTableKind::AnyEntityEvent, type_id: Some(*id), entity: None, reactors: list(reactors),
+            });
+        }
+        for (id, reactors) in self.resource_reactors.iter()
+        {
+            snap.tables.push(VerifTableEntry{
+                kind: VerifTableKind::ResourceMutation, type_id: Some(*id), entity: None, reactors: list(reactors),
+            });
+        }
+        for (id, reactors) in self.broadcast_reactors.iter()
+        {
+            snap.tables.push(VerifTableEntry{
+                kind: VerifTableKind::Broadcast, type_id: Some(*id), entity: None, reactors: list(reactors),
+            });
+        }
+    }
+}
+
 impl Default for ReactCache
 {
     fn default() -> Self
